@@ -17,7 +17,7 @@ func init() {
 		Doc: "provenance of fitted pieces: (1) the fitting attempt - the geom function returning (control polygon, bool) that calls the containment test - reports success only for the very control polygon it has just tested against the barriers " +
 			"(the success return is control-dependent on containment(V, barriers) being true for the returned V), or for the degenerate straight segment of a two-point path; " +
 			"(2) the recursive fitter returns only lists made of a successful attempt's polygon (guarded by the attempt's ok) or concatenations of its own recursive results - a polygon built any other way never met the corridor",
-		Floor: 3,
+		Floor: 4,
 		Ctl:   []string{"internal__geom__cont1.go.txt"},
 		Run:   runCont1,
 	})
@@ -230,6 +230,93 @@ func runCont1(m *Model, r *RuleResult) {
 	}
 	if nFit == 0 {
 		r.undecided("fitter", "-", "a recursive geom function returning the list of control polygons", "not found")
+	}
+	// the barriers form a closed ring: the function that turns a polygon's vertex list into segments emits the closing
+	// segment (last vertex -> first vertex), or pairs vertex i with vertex (i+1) mod n
+	nRing := 0
+	for _, f := range m.Src {
+		if shortPkg(pkgPathOf(f)) != "internal/geom" || f.Parent() != nil || f.Signature.Results().Len() != 1 || len(f.Params) != 1 {
+			continue
+		}
+		sl, ok := f.Signature.Results().At(0).Type().Underlying().(*types.Slice)
+		if !ok || !isNamed(sl.Elem(), "Segment") || !isNamed(f.Params[0].Type(), "Polygon") {
+			continue
+		}
+		nRing++
+		ctl := m.FuncIsPosctl(f)
+		// index expressions of the two ends of every constructed segment
+		isLenMinus1 := func(v ssa.Value) bool {
+			bo, ok := v.(*ssa.BinOp)
+			if !ok || bo.Op != token.SUB {
+				return false
+			}
+			k, isK := constInt(bo.Y)
+			call, isCall := bo.X.(*ssa.Call)
+			if !isK || k != 1 || !isCall {
+				return false
+			}
+			b, isB := call.Call.Value.(*ssa.Builtin)
+			return isB && b.Name() == "len"
+		}
+		isMod := func(v ssa.Value) bool {
+			bo, ok := v.(*ssa.BinOp)
+			return ok && bo.Op == token.REM
+		}
+		idxOf := func(v ssa.Value) ssa.Value {
+			u, ok := v.(*ssa.UnOp)
+			if !ok || u.Op != token.MUL {
+				return nil
+			}
+			ia, ok := u.X.(*ssa.IndexAddr)
+			if !ok {
+				return nil
+			}
+			return ia.Index
+		}
+		closed := false
+		ends := map[ssa.Value][2]ssa.Value{}
+		eachInstr(f, func(in ssa.Instruction) {
+			st, ok := in.(*ssa.Store)
+			if !ok {
+				return
+			}
+			fa, ok := st.Addr.(*ssa.FieldAddr)
+			if !ok {
+				return
+			}
+			base, steps := fieldChain(fa)
+			loc := locOfSteps(steps)
+			if !strings.HasPrefix(loc, "internal/geom.Segment.") {
+				return
+			}
+			e := ends[base]
+			if fa.Field == 0 {
+				e[0] = idxOf(st.Val)
+			} else {
+				e[1] = idxOf(st.Val)
+			}
+			ends[base] = e
+		})
+		for _, e := range ends {
+			if e[0] == nil || e[1] == nil {
+				continue
+			}
+			k0, c0 := constInt(e[0])
+			k1, c1 := constInt(e[1])
+			if (isLenMinus1(e[0]) && c1 && k1 == 0) || (isLenMinus1(e[1]) && c0 && k0 == 0) || isMod(e[0]) || isMod(e[1]) {
+				closed = true
+			}
+		}
+		key := "barriers-closed-ring:" + funcKey(f)
+		if closed {
+			r.add(Obligation{Key: key, Pos: m.Pos(f.Pos()), Desc: "the polygon's sides include the closing segment from the last vertex back to the first", Verdict: "holds", Control: ctl})
+		} else {
+			r.add(Obligation{Key: key, Pos: m.Pos(f.Pos()), Desc: "the sides of the corridor polygon must form a closed ring", Verdict: "violation",
+				Detail: "no segment joins the last vertex to the first (and no (i+1) mod n pairing): one wall of the corridor is missing, so the containment test accepts curves that leave through it", Control: ctl})
+		}
+	}
+	if nRing == 0 {
+		r.undecided("barriers-closed-ring", "-", "the geom function that turns a Polygon into []Segment", "not found")
 	}
 	r.add(Obligation{Key: "containment-test", Pos: m.Pos(contains[0].Pos()), Desc: fmt.Sprintf("containment test resolved by signature: %s; %d fitting attempt(s), %d recursive fitter(s)", funcKey(contains[0]), len(attempts), nFit), Verdict: "holds"})
 }
